@@ -944,12 +944,28 @@ def _build(name, seed):
             return BUILDERS[name](random.Random(seed))
 
 
+# integer arrays of every width (float32 arrays are NOT included: computing in single precision legitimately
+# changes results at the 1e-7 level, and the property speaks of equal-valued list / integer / floating-point forms)
+NARROW_FORMS = {"uint8": np.uint8, "int8": np.int8, "int16": np.int16, "int32": np.int32}
+
+
 def _as_form(a, form):
     if form == "list":
         return np.asarray(a).tolist()
     if form == "int":
         return np.asarray(a).astype(np.int64)
+    if form in NARROW_FORMS:
+        return np.asarray(a).astype(NARROW_FORMS[form])
     return np.asarray(a, dtype=float)
+
+
+def _fits(a, form):
+    """the values survive the conversion exactly (so every representation denotes the same diagram)"""
+    f = np.asarray(a, dtype=float)
+    if not np.all(np.isfinite(f)):
+        return False
+    with np.errstate(all="ignore"):
+        return bool(np.array_equal(f.astype(NARROW_FORMS[form]).astype(float), f))
 
 
 def _nontrivial(c):
@@ -1016,10 +1032,14 @@ def exercise(ctx, name, seed, kind, others=()):
     # representation independence [T only]
     if c.dgm_args and res1[0] == "ok":
         base = None
-        for form in ("float", "int", "list"):
+        for form in ("float", "int", "list") + tuple(NARROW_FORMS):
             cf = _build(name, seed)
             if form == "int" and any(np.any(np.isinf(np.asarray(cf.args[i], dtype=float))) for i in c.dgm_args):
                 continue                      # an integer array cannot hold an infinite death
+            if form in NARROW_FORMS and not all(_fits(cf.args[i], form) for i in c.dgm_args):
+                continue                      # narrow dtypes only where they hold the same values exactly
+            if form in NARROW_FORMS:
+                ctx.count("representation_form:" + form)
             for i in c.dgm_args:
                 cf.args[i] = _as_form(cf.args[i], form)
             fs = [Snap(a) for a in cf.args]
